@@ -420,87 +420,97 @@ def _length_is(ctx, it, divisor):
 
 
 # ----------------------------------------------------------------------- pots
-def _pots(chk, ctx) -> None:
+def pots_roles(ctx):
+    """names of the locals of State.pots by ROLE (found by the shape of what is appended / passed on,
+    never by spelling): contributions list, pending list, running amount, list of pots, loop player"""
     fi = ctx.sfi('pots')
-    appends = {}
-    rake_ok = merge_ok = level_ok = False
-    rake_detail = ''
-    for p in ctx.paths(fi, max_paths=200000):
-        for e in p.events:
-            if e.kind == 'lwrite' or e.kind == 'write':
-                continue
-        for e in p.events:
-            if e.kind == 'call' and e.term[0] == 'mcall' and e.term[2] == 'append' and e.term[1][0] == 'name':
-                appends.setdefault(e.term[1][1], set()).add(unversion(e.term[3][0]) if e.term[3] else None)
-    i = ('elem', ('self', 'player_indices'))
-    want_c = T.spec('-self.payoffs[i] - self.bets[i]', {'i': i})
-    want_p = T.spec('-self.payoffs[i]', {'i': i})
-    # the walker binds list-typed locals to their initial value; appends show up as method calls on that value
-    contrib = pend = None
+    m = ctx.m
+    roles = {}
     for n in walk_no_nested(fi.node):
         if isinstance(n, ast.Call) and isinstance(n.func, ast.Attribute) and n.func.attr == 'append' \
-                and isinstance(n.func.value, ast.Name) and n.args:
-            t = T.norm(n.args[0], {'i': i})
-            if n.func.value.id == 'contributions':
-                contrib = t
-            elif n.func.value.id == 'pending_contributions':
-                pend = t
-    chk.ob('C01.pots', 'State.pots:contribution', contrib == want_c, fi.loc,
+                and isinstance(n.func.value, ast.Name) and len(n.args) == 1:
+            t = T.norm(n.args[0])
+            if m.eq(t, '-self.payoffs[i] - self.bets[i]'):
+                roles['contrib'] = n.func.value.id
+                roles['contrib_append'] = n
+            elif m.eq(t, '-self.payoffs[i]'):
+                roles['pending'] = n.func.value.id
+            elif isinstance(n.args[0], ast.Name) and t[0] == 'name':
+                # pots.append(pot)
+                roles.setdefault('pots_list', n.func.value.id)
+        if isinstance(n, ast.Call) and self_attr(n.func) == 'rake' and len(n.args) == 2 and isinstance(n.args[0], ast.Name):
+            roles['amount'] = n.args[0].id
+            roles['rake_call'] = n
+    return fi, roles
+
+
+def _pots(chk, ctx) -> None:
+    fi, roles = pots_roles(ctx)
+    m = ctx.m
+    C, P, A = roles.get('contrib'), roles.get('pending'), roles.get('amount')
+    chk.ob('C01.pots', 'State.pots:contribution', C is not None, fi.loc,
            'chips of a player that are in the pots = what he paid in total minus what is still in front of him',
-           got=T.show(contrib) if contrib else None, want=T.show(want_c))
-    chk.ob('C01.pots', 'State.pots:pending', pend == want_p, fi.loc,
+           got=f'list `{C}`' if C else 'no list is filled with -payoffs[i] - bets[i]', want='-self.payoffs[i] - self.bets[i]')
+    chk.ob('C01.pots', 'State.pots:pending', P is not None, fi.loc,
            'eligibility level of a player = everything he paid (incl. the bet in front of him)',
-           got=T.show(pend) if pend else None, want=T.show(want_p))
+           got=f'list `{P}`' if P else 'no list is filled with -payoffs[i]', want='-self.payoffs[i]')
+    if C is None or P is None or A is None:
+        raise AnalysisError('State.pots: contribution / eligibility lists or the raked amount not recognisable')
     # the two per-player lists differ by the bet in front of the player and are adjusted alike afterwards
-    adj = {'contributions': [], 'pending_contributions': []}
+    adj = {C: [], P: []}
     for n in walk_no_nested(fi.node):
         if isinstance(n, ast.AugAssign) and isinstance(n.target, ast.Subscript) and isinstance(n.target.value, ast.Name) \
                 and n.target.value.id in adj:
             adj[n.target.value.id].append((type(n.op).__name__, T.key(T.norm(n.target.slice)), T.key(T.norm(n.value)), _guards_of(fi.node, n)))
-    chk.ob('C01.pots', 'State.pots:parallel_adjustments', sorted(adj['contributions']) == sorted(adj['pending_contributions']) and bool(adj['contributions']), fi.loc,
+    chk.ob('C01.pots', 'State.pots:parallel_adjustments', sorted(adj[C]) == sorted(adj[P]) and bool(adj[C]), fi.loc,
            'what is taken out of a player\'s pot contribution (the dead ante when antes are not trimmed) is taken out of his eligibility level too: '
            'the two lists always differ by exactly the bet in front of him',
            got={k: [(o, v) for o, _, v, _ in x] for k, x in adj.items()})
-    antes = [n for n in walk_no_nested(fi.node) if isinstance(n, ast.Assign) and isinstance(n.targets[0], ast.Name) and n.targets[0].id == 'ante']
-    ok = len(antes) == 1 and T.norm(antes[0].value) == T.spec('self.get_effective_ante(i)') and \
-        any(isinstance(n, ast.AugAssign) and isinstance(n.op, ast.Add) and ast.unparse(n.target) == 'amount' and T.norm(n.value) == ('name', 'ante')
-            for n in walk_no_nested(fi.node))
-    under = antes and T.spec('not self.ante_trimming_status', boolean=True) in [T.cond(t) for t in _tests_of(fi.node, antes[0])]
+    antes = m.assigns(fi.node, 'self.get_effective_ante(i)')
+    ok = under = False
+    if len(antes) == 1 and isinstance(antes[0].targets[0], ast.Name):
+        an = antes[0].targets[0].id
+        ok = any(isinstance(n, ast.AugAssign) and isinstance(n.op, ast.Add) and isinstance(n.target, ast.Name) and n.target.id == A
+                 and isinstance(n.value, ast.Name) and n.value.id == an for n in walk_no_nested(fi.node))
+        ok = ok and any(isinstance(n, ast.AugAssign) and isinstance(n.op, ast.Sub) and isinstance(n.target, ast.Subscript)
+                        and isinstance(n.target.value, ast.Name) and n.target.value.id == C and isinstance(n.value, ast.Name) and n.value.id == an
+                        for n in walk_no_nested(fi.node))
+        under = T.spec('not self.ante_trimming_status', boolean=True) in [T.cond(t) for t in _tests_of(fi.node, antes[0])]
     chk.ob('C01.pots', 'State.pots:dead_antes', ok and bool(under), fi.loc,
            'untrimmed antes are dead money: each effective ante goes into the first pot and is removed from the player\'s own contribution')
     # rake: both results reach Pot(...)
-    rake_calls = [n for n in walk_no_nested(fi.node) if isinstance(n, ast.Call) and self_attr(n.func) == 'rake']
+    rake_call = roles['rake_call']
     pot_calls = [n for n in walk_no_nested(fi.node) if isinstance(n, ast.Call) and isinstance(n.func, ast.Name) and n.func.id == 'Pot']
     ok = False
-    if len(rake_calls) == 1 and len(pot_calls) == 1:
-        asg = [n for n in walk_no_nested(fi.node) if isinstance(n, ast.Assign) and n.value is rake_calls[0]]
+    rake_detail = ''
+    if len(pot_calls) == 1:
+        asg = [n for n in walk_no_nested(fi.node) if isinstance(n, ast.Assign) and n.value is rake_call]
         if asg and isinstance(asg[0].targets[0], ast.Tuple) and len(asg[0].targets[0].elts) == 2:
             a, b = (e.id for e in asg[0].targets[0].elts)
             pa = [x.id if isinstance(x, ast.Name) else None for x in pot_calls[0].args[:2]]
             ok = pa == [a, b]
             rake_detail = f'rake -> ({a}, {b}); Pot({pa[0]}, {pa[1]}, ...)'
-            ra = rake_calls[0].args
-            ok = ok and len(ra) == 2 and isinstance(ra[0], ast.Name) and ra[0].id == 'amount' \
-                and isinstance(ra[1], ast.Name) and ra[1].id == 'self'
+            ra = rake_call.args
+            ok = ok and len(ra) == 2 and isinstance(ra[1], ast.Name) and ra[1].id == 'self'
     chk.ob('C01.pots', 'State.pots:rake', ok, fi.loc,
            'the pot amount is split by rake(amount, state) and both parts (raked, unraked) are stored in the Pot in that order', got=rake_detail)
     # merge of pots with equal eligibility re-adds the whole amount (raked + unraked)
     merges = [n for n in walk_no_nested(fi.node) if isinstance(n, ast.AugAssign) and isinstance(n.op, ast.Add)
-              and 'pop()' in ast.unparse(n.value)]
-    ok = len(merges) == 1 and T.norm(merges[0].value) == T.spec('pots.pop().amount')
+              and any(isinstance(c, ast.Call) and isinstance(c.func, ast.Attribute) and c.func.attr == 'pop' for c in ast.walk(n.value))]
+    ok = len(merges) == 1 and isinstance(merges[0].target, ast.Name) and merges[0].target.id == A and m.eq(T.norm(merges[0].value), 'pots.pop().amount')
     chk.ob('C01.pots', 'State.pots:merge', ok, ctx.loc(fi, merges[0]) if merges else fi.loc,
            'a pot merged into the next one re-adds its whole amount (raked + unraked), which is then raked again as one pot',
            got=stmt_text(merges[0]) if merges else None, want='amount += pots.pop().amount')
-    # layer increment
-    incs = [n for n in walk_no_nested(fi.node) if isinstance(n, ast.AugAssign) and isinstance(n.op, ast.Add)
-            and isinstance(n.target, ast.Name) and n.target.id == 'amount' and 'contribution' in ast.unparse(n.value) and 'pop' not in ast.unparse(n.value)]
-    ok = len(incs) == 1 and T.norm(incs[0].value) == T.spec('contribution - previous_contribution')
-    guard_ok = False
-    if incs:
-        for n in walk_no_nested(fi.node):
-            if isinstance(n, ast.If) and incs[0] in n.body:
-                guard_ok = T.cond(n.test) == T.spec('contributions[i] >= contribution', boolean=True)
-    chk.ob('C01.pots', 'State.pots:layer', ok and guard_ok, ctx.loc(fi, incs[0]) if incs else fi.loc,
+    # layer increment: under contributions[i] >= level:  amount += level - previous level
+    ok = False
+    for n in walk_no_nested(fi.node):
+        if isinstance(n, ast.If):
+            for st in n.body:
+                if isinstance(st, ast.AugAssign) and isinstance(st.op, ast.Add) and isinstance(st.target, ast.Name) and st.target.id == A:
+                    shape = ('layer', T.cond(n.test), T.norm(st.value))
+                    want = ('layer', T.spec(f'{C}[i] >= level', boolean=True), T.spec('level - previous'))
+                    ok |= T.alpha_eq(shape, want, lambda x: ctx.m.is_var(x) and x != C)
+    chk.ob('C01.pots', 'State.pots:layer', ok, fi.loc,
            'each contribution level adds (level - previous level) once per player who contributed at least that level')
     # Pot.amount and total_pot_amount
     pot = ctx.prog.cls('Pot')
